@@ -48,7 +48,7 @@ func c07ReuseCase(c *core.Ctx, idx int) {
 	var mu sync.Mutex
 	var log []ran
 	current := -1
-	kinds := []string{"commits", "caller error", "rejected operation", "pre-commit action fails", "commits", "caller error after registering"}
+	kinds := []string{"commits", "caller error", "rejected operation", "pre-commit action fails", "commits", "caller error after registering", "caller panics after registering"}
 	n := 3 + r.Intn(4)
 	var plan []string
 	committed := map[int]bool{}
@@ -66,7 +66,19 @@ func c07ReuseCase(c *core.Ctx, idx int) {
 		current = t
 		mu.Unlock()
 		t := t
-		err := run(ctx, func(mctx boltz.MutateContext) error {
+		if kind == "caller panics after registering" {
+			run = db.Update // (bbolt's Batch runs its functions on another goroutine: a panic there cannot be recovered here)
+		}
+		guarded := func(ctx boltz.MutateContext, fn func(boltz.MutateContext) error) (err error) {
+			// the caller recovers from a panic of its own transaction function and goes on with the context
+			defer func() {
+				if rec := recover(); rec != nil {
+					err = fmt.Errorf("recovered: %v", rec)
+				}
+			}()
+			return run(ctx, fn)
+		}
+		err := guarded(ctx, func(mctx boltz.MutateContext) error {
 			attempts[t]++ // Db.Batch runs a failing function a second time on its own (bbolt's contract)
 			if kind == "caller error" {
 				return boom // fails before anything is registered
@@ -93,6 +105,8 @@ func c07ReuseCase(c *core.Ctx, idx int) {
 				return st.Store.Create(mctx, &schema.Ent{Id: fmt.Sprintf("b%d-dup", t), Typ: "boxes", V: map[string]any{"label": fmt.Sprintf("l%d", t)}})
 			case "caller error after registering":
 				return boom
+			case "caller panics after registering":
+				panic("boom")
 			}
 			return nil
 		})
